@@ -267,10 +267,11 @@ fn events_json(events: &[Ev]) -> Value {
 
 /// The events without their payload digests, as rows [lvl, ev, c, mk, mi, vis, frame]. Label definitions
 /// (visit_last_label) are left out: the specification does not count them as items (Visit.tla, Items), so a
-/// skeleton can be compared row by row with the model's.
+/// skeleton can be compared row by row with the model's. The same holds for a visit_local_variables call without
+/// rows; of one with rows the skeleton keeps the kinds (vis), not the digests.
 fn skeleton(events: &[Ev]) -> Value {
-	Value::Array(events.iter().filter(|e| !(e.lvl == "code" && e.ev == "visit_last_label"))
-		.map(|e| json!([e.lvl, e.ev, e.c, e.mk, e.mi, e.vis, e.frame])).collect())
+	Value::Array(events.iter().filter(|e| !(e.lvl == "code" && (e.ev == "visit_last_label" || (e.ev == "visit_local_variables" && e.vis.is_empty()))))
+		.map(|e| json!([e.lvl, e.ev, e.c, e.mk, e.mi, e.vis, if e.ev == "visit_local_variables" { "" } else { e.frame.as_str() }])).collect())
 }
 
 /// `n` successive reads on one stream with a recording visitor; stops at the first failing read.
